@@ -231,14 +231,25 @@ func TestVerif_C16_StoreModel(t *testing.T) {
 				time.Sleep(15 * time.Millisecond)
 				tk2 := tk
 				tk2.perms = np
+				fi0, _ := os.Stat(fn)
 				if _, err := Update(mkTok(name, tk2), before); err != nil {
 					t.Fatalf("same-size edit of %s with the current tag refused: %v", name, err)
 				}
 				model[name] = tk2
 				after := curTag()
+				fi1, _ := os.Stat(fn)
 				log = append(log, fmt.Sprintf("same-size edit of %s: tag %s -> %s", name, before, after))
+				if fi0 != nil && fi1 != nil && fi0.Size() == fi1.Size() && fi0.ModTime().Equal(fi1.ModTime()) {
+					// the file system itself gave both versions one modification time (its clock is coarse, and on a busy
+					// virtual machine it can stall for longer than the 15 ms waited): they are indistinguishable by size and
+					// time, which the statement excludes.  No verdict; whatever follows in this case is unreliable too.
+					collisions++
+					c16Rec.Class("discarded_file_system_gave_two_versions_one_modification_time")
+					return
+				}
 				if after == before {
-					t.Fatalf("C16: two versions of the token file written more than 15 ms apart (same size) carry the same tag %s: an editor holding it cannot see the other's change [%s]", after, strings.Join(log, "; "))
+					t.Fatalf("C16: two versions of the token file of the same size whose modification times differ (%v, %v) carry the same tag %s: an editor holding it cannot see the other's change [%s]",
+						fi0.ModTime().UnixNano(), fi1.ModTime().UnixNano(), after, strings.Join(log, "; "))
 				}
 				if _, err := Update(mkTok(name, tk), before); err == nil {
 					t.Fatalf("C16: an edit conditioned on tag %s succeeded although the file had been rewritten (same size, later) since that tag was read [%s]", before, strings.Join(log, "; "))
